@@ -209,12 +209,13 @@ type PathItem struct {
 }
 
 type Spec struct {
-	ServerURL string            // servers[0].url; "" = no servers
-	ServerVar map[string]string // variable defaults
-	Paths     []*PathItem
-	Schemes   []Scheme
-	Global    []Requirement // nil: no global security
-	HasGlobal bool
+	ServerURL   string            // servers[0].url; "" = no servers
+	MoreServers []string          // servers[1..].url (only the first server decides the base path)
+	ServerVar   map[string]string // variable defaults
+	Paths       []*PathItem
+	Schemes     []Scheme
+	Global      []Requirement // nil: no global security
+	HasGlobal   bool
 
 	CompSchemas   []Prop
 	CompParams    map[string]Param
@@ -313,7 +314,11 @@ func (s *Spec) Doc() []byte {
 			}
 			sv["variables"] = vs
 		}
-		doc["servers"] = []interface{}{sv}
+		svs := []interface{}{sv}
+		for _, u := range s.MoreServers {
+			svs = append(svs, map[string]interface{}{"url": u})
+		}
+		doc["servers"] = svs
 	}
 	paths := map[string]interface{}{}
 	for _, pi := range s.Paths {
@@ -485,7 +490,7 @@ func (s *Spec) InlineAll() *Spec {
 	for _, p := range s.CompSchemas {
 		comps[p.Name] = p.Schema
 	}
-	out := &Spec{ServerURL: s.ServerURL, ServerVar: s.ServerVar, Schemes: s.Schemes, Global: s.Global, HasGlobal: s.HasGlobal, InfoDesc: s.InfoDesc}
+	out := &Spec{ServerURL: s.ServerURL, MoreServers: s.MoreServers, ServerVar: s.ServerVar, Schemes: s.Schemes, Global: s.Global, HasGlobal: s.HasGlobal, InfoDesc: s.InfoDesc}
 	param := func(p Param) Param {
 		if p.Ref != "" {
 			p = s.CompParams[p.Ref]
@@ -550,7 +555,7 @@ func (s *Spec) InlineAll() *Spec {
 // those has been moved into components and is used by reference. names maps
 // "<METHOD> <raw path> <status>" to the response component's name.
 func (s *Spec) HoistAll() (*Spec, map[string]string) {
-	out := &Spec{ServerURL: s.ServerURL, ServerVar: s.ServerVar, Schemes: s.Schemes, Global: s.Global, HasGlobal: s.HasGlobal, InfoDesc: s.InfoDesc,
+	out := &Spec{ServerURL: s.ServerURL, MoreServers: s.MoreServers, ServerVar: s.ServerVar, Schemes: s.Schemes, Global: s.Global, HasGlobal: s.HasGlobal, InfoDesc: s.InfoDesc,
 		CompSchemas: append([]Prop{}, s.CompSchemas...), CompParams: map[string]Param{}, CompHeaders: map[string]Header{}, CompResponses: map[string]Response{}, CompBodies: map[string]Body{}}
 	for k, v := range s.CompParams {
 		out.CompParams[k] = v
